@@ -65,27 +65,28 @@ type Exec struct {
 	writes []WriteRec
 	curAct int
 	// loop invariants supplied by contracts: key "Func#k"
-	invariants   map[string]*LoopSpec
-	sideObls     []SideObl
-	inInit       bool
-	knownTerms   map[*Term]*Term
-	feasCache    map[*Term]bool
-	abstractFns  map[string]bool
-	urlQueries   map[*Term]Value
-	gobReg       map[*Term]gobEntry
-	world        *World
-	symLoopBound int
-	jgetLog      [][2]*Term // (value, key) of every member lookup performed through the fastjson accessors
-	jdocRoot     *Term      // document whose members are described by jdocLookup
-	jdocLookup   func(name string) *Term
-	allocs       []AllocRec // make() calls whose size is not a constant
-	autoInv      bool // cut loops of symbolic trip count without a written invariant by the trivial invariant (safety proofs)
-	autoCuts     int
-	unwindAssert bool    // cut symbolic loops with an unwinding assertion instead of an assumption
-	residuals    []*Term // path conditions of the cut iterations (must be unsatisfiable)
-	maxSymUnroll int
-	feasQueries  int
-	calls        []CallRec
+	invariants    map[string]*LoopSpec
+	sideObls      []SideObl
+	inInit        bool
+	knownTerms    map[*Term]*Term
+	feasCache     map[*Term]bool
+	abstractFns   map[string]bool
+	inPlaceAppend bool // model append in place where Go guarantees it (see appendInPlace); off: always a fresh array
+	urlQueries    map[*Term]Value
+	gobReg        map[*Term]gobEntry
+	world         *World
+	symLoopBound  int
+	jgetLog       [][2]*Term // (value, key) of every member lookup performed through the fastjson accessors
+	jdocRoot      *Term      // document whose members are described by jdocLookup
+	jdocLookup    func(name string) *Term
+	allocs        []AllocRec // make() calls whose size is not a constant
+	autoInv       bool       // cut loops of symbolic trip count without a written invariant by the trivial invariant (safety proofs)
+	autoCuts      int
+	unwindAssert  bool    // cut symbolic loops with an unwinding assertion instead of an assumption
+	residuals     []*Term // path conditions of the cut iterations (must be unsatisfiable)
+	maxSymUnroll  int
+	feasQueries   int
+	calls         []CallRec
 }
 
 // CallRec records an invocation of a hooked (contracted) function.
